@@ -27,7 +27,7 @@ CHECKS = {
   "C06": ("fault_enumeration",
           "exhaustive fault-plan enumeration (frame index x direction x fault kind x timeout pair) over real endpoints on the harness transport under a paused virtual clock, with deviation-bounded schedule exploration per plan",
           "Workload: handshake, port open, 3-chunk message, echo, idle gap with pings, small message, a credit-blocked sender on a second port, pending recv/accept/closed. Faults: sink error, stream error, end of stream, stall of both / one direction at every frame index, for 5 connection_timeout pairs; healthy idle periods of 20x the timeout. Oracle in virtual time: each dispatcher fails by fault time + own timeout (or peer termination), every started and later operation completes with an error, received is a prefix of sent, healthy idle connections survive.",
-          "Virtual time only; an endpoint without timeout has no obligation under silent stalls; quick tier d=1 is time-capped (reported).",
+          "Virtual time only; an endpoint without timeout has no obligation under silent stalls; quick tier d=1 is time-capped (reported). Typed layers (mpsc both ways, broadcast with a keeping-up or lagging remote subscriber, watch, oneshot, remote trait call in flight or later, remote function) under cut / stall / one-way stall: every pending and later operation ends with an error within 30 virtual seconds.",
           "DESIGN.md 4/C06"),
   "C08": ("model_checking",
           "explicit-state breadth-first search over peer frame histories (alphabet of 73 raw frames incl. malformed ones) from 8 API-state prefixes, each state rebuilt by re-execution on one real endpoint; the peer advertises a receive buffer of its own far larger than the endpoint's",
@@ -42,7 +42,7 @@ CHECKS = {
   "C10": ("model_checking",
           "deviation-bounded schedule exploration + grid of request kinds x listener action scripts x max_ports x connect_queue on real endpoints; id-based ground truth and label echo pairing oracle; wire-ledger connect_queue invariant",
           "Request kinds: wait / no-wait / plain / over-port(wait,no-wait) / cancelled; listener actions: accept, inspect+accept, reject(no_ports t/f), drop, cancelled Listener::accept, cancelled Request::accept; pairs and triples over max_ports and connect_queue incl. exhaustion; after teardown every request must be resolved with the classification matching what the listener did; accepted pairs echo their ids both ways; unanswered OpenPort <= advertised connect_queue at every wire prefix; request visible to the listener before data sent after Connect::sent().",
-          "The configured default exhaustion policy Cfg::ports_exhausted (fail / wait / wait 5 s) is enumerated with all local ports in use and the port freed never / after 2 s / after 20 s; it is never read by the implementation (known finding F7, two signatures).",
+          "The configured default exhaustion policy Cfg::ports_exhausted (fail / wait / wait 5 s) is enumerated with all local ports in use and the port freed never / after 2 s / after 20 s; it is never read by the implementation (known finding F7, two signatures). Port requests over a port with and without the wait flag while the remote endpoint has one free port too few, with the port list split over several frames or not.",
           "DESIGN.md 4/C10"),
   "C11": ("model_checking",
           "deviation-bounded schedule exploration (d<=2/3) of close / receiver drop / sender drop / cancelled close at every position of a 4-message stream with a chunked message on real chmux ports; bounded exhaustive enumeration of the same events (plus connection cut) on every typed channel kind and placement, with schedule exploration of the racing cases",
@@ -86,22 +86,22 @@ CHECKS = {
           "DESIGN.md 4/C19"),
   "C17": ("model_checking",
           "deviation-bounded schedule exploration with preemption injection + timing sweeps of real remote rw_lock handles; timed-history oracle",
-          "Two clones on the owner's endpoint (shared cache) and two independently sent handles on a remote endpoint run scripts of <= 3 operations over {read and hold, write+commit, write+drop}, cold and warm caches; a write shifted by k = 0..23/39 steps against a read on another handle, each with a further deviation; loss of the connection of an endpoint holding a read or write guard; a remote handle committing a value the owner cannot decode (the commit must fail and change nothing). Oracle: no write guard interval overlaps any other guard, write guards obtain the latest commit, reads return a value current at some instant of the call, commits are never lost, dropped write guards change nothing, and with all guards released every request completes (no deadlock).",
+          "Two clones on the owner's endpoint (shared cache) and two independently sent handles on a remote endpoint run scripts of <= 3 operations over {read and hold, write+commit, write+drop}, cold and warm caches; a write shifted by k = 0..23/39 steps against a read on another handle, each with a further deviation; loss of the connection of an endpoint holding a read or write guard; a remote handle committing a value the owner cannot decode (the commit must fail and change nothing); reads on an endpoint that lost its connection (cold / warm cache, guard held across the cut) after the owner's endpoint committed a new value must fail or show the new value. Oracle: no write guard interval overlaps any other guard, write guards obtain the latest commit, reads return a value current at some instant of the call, commits are never lost, dropped write guards change nothing, and with all guards released every request completes (no deadlock).",
           "Guard intervals measured with the scheduler step counter; a write guard ends when commit() consumes it. Holder-loss cases judge the surviving endpoint only. Quick tier is time-capped (reported).",
           "DESIGN.md 4/C17"),
   "C13": ("model_checking",
           "bounded exhaustive enumeration of operation sequences over each collection's full mutating API x initial contents x subscription points x modes on the real robs code, four kinds of consumer compared with the observable itself; deviation-bounded schedule exploration of representative sequences",
-          "Vector, deque, hash map, hash set, list: every sequence of depth <= 2 (quick) / 3 (thorough) (sets 3/4, lists 4) over alphabets of 13-28 operations (incl. get_mut / iter_mut with and without writing, entry API, retain incl. a value-mutating predicate, resize both ways, swap_remove_back/front, extend, out-of-range and no-op cases, done), from the empty collection and from every content state over {0,1,2} of length <= 2/3 built through From; a snapshot and an incremental subscription is taken before every operation and consumed by mirror(), by two mirrors subscribed to that mirror, by hand (events replayed on a std collection) and by a mirror on a remote endpoint; at quiescence contents, done flag, completeness and detach() must equal the observable's; done() followed by an immediate drop must still deliver everything. Delivery schedules of 7 representative sequences with <= 1/2 deviations.",
+          "Vector, deque, hash map, hash set, list: every sequence of depth <= 2 (quick) / 3 (thorough) (sets 3/4, lists 4) over alphabets of 13-28 operations (incl. get_mut / iter_mut with and without writing, entry API, retain incl. a value-mutating predicate, resize both ways, swap_remove_back/front, extend, out-of-range and no-op cases, done), from the empty collection and from every content state over {0,1,2} of length <= 2/3 built through From; a snapshot and an incremental subscription is taken before every operation and consumed by mirror(), by two mirrors subscribed to that mirror, by hand (events replayed on a std collection) and by a mirror on a remote endpoint; at quiescence contents, done flag, completeness and detach() must equal the observable's; done() followed by an immediate drop must still deliver everything. Delivery schedules of 7 representative sequences with <= 1/2 deviations. Hand consumers also exist with every recv() future dropped at its 1st / 2nd poll and retried.",
           "Buffers large enough not to lag (C14's subject). Known finding F4 (retain with a value-mutating predicate on hash maps).",
           "DESIGN.md 4/C13"),
   "C14": ("model_checking",
           "bounded exhaustive enumeration of subscriber-speed patterns x event buffers x size limits x endings x cut points x joining points on the real robs code with a history oracle on every observation; forged event streams from a peer; deviation-bounded schedule exploration of core cases",
-          "For vector, deque, hash map, hash set and list: scripts of 3 (quick) / 2,3,5 (thorough) single-event operations, all 2^n patterns of where the consumers get to run, event buffer 1/2/(3)/1024, mirror size limit (1)/2/(3)/100, ending done / done+drop / drop / kept, consumers local or on a remote endpoint, connection cut after k operations, a second group of subscribers joining mid-way; per group a snapshot and an incremental subscription each consumed by a watched mirror (every change observed via borrow_and_update/changed, then borrow twice and detach) and by hand with the replica state recorded after every event. Oracle: every presented state is a state of the collection's history after the subscription point, in order and without skipping; a consumer that does not end on the final state (with Done) ends with an error of the class its situation allows and a mirror keeps reporting it; detach returns a history state; list subscribers receive everything. Forged streams: out-of-range Set/Insert/Remove/SwapRemove(Back/Front) and Resize/Insert/Push past max_size must be reported (InvalidIndex / MaxSizeExceeded), not applied, and nothing after them applied. Joining a mirror while a reader holds a borrow and an event is queued. Schedules of core cases with <= 1/2 deviations.",
+          "For vector, deque, hash map, hash set and list: scripts of 3 (quick) / 2,3,5 (thorough) single-event operations, all 2^n patterns of where the consumers get to run, event buffer 1/2/(3)/1024, mirror size limit (1)/2/(3)/100, ending done / done+drop / drop / kept, consumers local or on a remote endpoint, connection cut after k operations, a second group of subscribers joining mid-way; per group a snapshot and an incremental subscription each consumed by a watched mirror (every change observed via borrow_and_update/changed, then borrow twice and detach) and by hand with the replica state recorded after every event. Oracle: every presented state is a state of the collection's history after the subscription point, in order and without skipping; a consumer that does not end on the final state (with Done) ends with an error of the class its situation allows and a mirror keeps reporting it; detach returns a history state; list subscribers receive everything. Forged streams: out-of-range Set/Insert/Remove/SwapRemove(Back/Front) and Resize/Insert/Push past max_size must be reported (InvalidIndex / MaxSizeExceeded), not applied, and nothing after them applied. Joining a mirror while a reader holds a borrow and an event is queued. A hand consumer that abandons every recv() at its first poll and retries. Schedules of core cases with <= 1/2 deviations.",
           "Scripts use single-event operations so intermediate replica states are history states. Virtual time; connection failure = cut of both directions.",
           "DESIGN.md 4/C14"),
   "C20": ("model_checking",
           "bounded exhaustive enumeration of handle travel paths x accessors x drop orders on a 3-endpoint triangle and of lazy value/blob sizes x hops x cut frames on a 4-endpoint chain, against a small reference model; deviation-bounded schedule exploration of core cases",
-          "Handles: every path over <= 3 connections of the triangle A-B, B-C, C-A (incl. returning over the other connection and a second round trip), as_ref / as_mut / cast+as_ref / into_inner at every stop, clones kept, sent home individually, dropped before/after the original, provider kept or dropped. Oracle: the value (with identity 4242) is obtainable only at its origin, at its original type, while not taken; every other access is an error, never another value; a handle or clone coming home over the connection it left on works; the drop counter of the stored value becomes 1 exactly once, after the last handle/provider is gone and not earlier. Lazy/LazyBlob: sizes 0/1/chunk/buffer+1/3*buffer/1000 over 1..3 connections, fetched once or twice concurrently, chunked relaying, provider dropped, connection cut after every frame on every link: a fetch returns exactly what was provided or an error, never a shorter value.",
+          "Handles: every path over <= 3 connections of the triangle A-B, B-C, C-A (incl. returning over the other connection and a second round trip), as_ref / as_mut / cast+as_ref / into_inner at every stop, clones kept, sent home individually, dropped before/after the original, provider kept or dropped. Oracle: the value (with identity 4242) is obtainable only at its origin, at its original type, while not taken; every other access is an error, never another value; a handle or clone coming home over the connection it left on works; the drop counter of the stored value becomes 1 exactly once, after the last handle/provider is gone and not earlier. Lazy/LazyBlob: sizes 0/1/chunk/buffer+1/3*buffer/1000 over 1..3 connections, fetched once or twice concurrently, chunked relaying, provider dropped, a clone of the received blob used after the other copy was consumed, connection cut after every frame on every link: a fetch returns exactly what was provided or an error, never a shorter value.",
           "Lazy<Vec<u8>> above max_data_size involves helper threads (input-exhaustive only, labelled).",
           "DESIGN.md 4/C20"),
 }
